@@ -263,7 +263,7 @@ def run(ctx):
         plans = [
             ("L1", 8, "any", GEN_INVS_FULL + ["GenComplete"]),
             ("D12", 8, "any", GEN_INVS_FULL),
-            ("X6", 8, "le65", GEN_INVS_FULL),
+            ("X6", 8, "le65", GEN_INVS_FAST),
             ("L2", 6, "le65", GEN_INVS_FULL),
             ("X12", 8, "le30", GEN_INVS_FULL + ["GenComplete"]),
             ("D9", 8, "le30", GEN_INVS_FAST),
@@ -320,7 +320,7 @@ def run(ctx):
         if not f["patch"].startswith("closed:"):
             groups.setdefault((f["patch"], len(f["dirs"]), f["bucket"]), []).append(f)
     per = 60 if thorough else 14          # with shifts and subdivisions
-    per_rot = 200 if thorough else 60     # rotations only (position coverage: poles, antimeridian)
+    per_rot = 120 if thorough else 60     # rotations only (position coverage: poles, antimeridian)
     sel = []
     for k in sorted(groups):
         g = list(groups[k])
